@@ -3,7 +3,7 @@ from ._m import run_generic, replay_generic
 from ..monitors_m import C04Mon
 
 WIT = ["order_with_ttl", "fill_in_last_step_of_ttl", "cancel_of_partially_filled", "cancel_of_filled", "cancel_of_resting", "cancel_of_cancelled", "cancel_of_expired", "expiry", "expiry_of_partially_filled", "expiry_of_market_order"]
-RULE = ("every operation history over the alphabet (clock step, limit/market submissions with and without time-to-live, "
+RULE = ("every operation history over the alphabet (clock step, clock set several steps ahead in one call, limit/market submissions with and without time-to-live, "
         "cancels of live and dead orders, matching round, running switch) up to the stated depth from the empty book and "
         "from each seed book, in continuous and in batch mode, executed on a real Market; a per-order ledger fed with the implementation's own fills predicts resting volume, terminal volumes, book membership and the expiry step in every reached state; "
         "distinct = canonical market states")
@@ -112,8 +112,13 @@ def invalid_scenarios():
 
 
 def run(tier, seed):
-    alph = {"quick_bad": __import__("vf.explore_m", fromlist=["alphabet"]).alphabet(bad=BAD)}
+    alphabet = __import__("vf.explore_m", fromlist=["alphabet"]).alphabet
+    # "jump": the clock may also be set 2 or 3 steps ahead in one call (Market._set_time), time-to-live 1 and 2
+    alph = {"quick_bad": alphabet(bad=BAD),
+            "jump": alphabet(vols=(1,), mvols=(1,), ttls=(None, 1, 2), mttls=(None, 1), cancels=2, dead=("expired",)) + [("J", 2), ("J", 3)]}
     extra = [("empty", "free", 3 if tier == "quick" else 4, "quick_bad"), ("partial", "free", 2, "quick_bad"), ("expiring", "cont", 2, "quick_bad")]
+    extra += [("empty", mode, 3 if tier == "quick" else 4, "jump") for mode in ("cont", "free")]
+    extra += [(sd, "free", 2 if tier == "quick" else 3, "jump") for sd in ("expiring", "same_expiry", "mixed_ttl")]
     res = run_generic("C04", tier, seed, factory, WIT + ["bad_op_rejected"], RULE, extra_alph=alph, extra_plan=extra)
     from ..enum_f import run_grid
     ev0, dn0 = res.coverage["evaluations"], res.coverage["distinct_nontrivial"]
